@@ -254,6 +254,130 @@ fn resend_after_failed_walk_family(g: &mut G, ctx: &RunCtx) -> RunReport {
     }
 }
 
+/// From https down to http: a TLS origin redirects to a plain one.  Whatever a browser would do about it, this
+/// client's contract is that the caller's header fields travel on every hop - all of them, under registered
+/// names as well as made-up ones.
+fn downgrade_family(g: &mut G, ctx: &RunCtx) -> RunReport {
+    use crate::peers::{Act, Script};
+    g.probe("family:redirect-from-https-down-to-http");
+    let status = *g.pick(&[301u16, 302, 303, 307, 308]);
+    const NAMES: &[&str] = &["Referer", "Origin", "Cookie", "Authorization", "X-Trace", "Accept-Language", "If-None-Match", "Range", "DNT", "Upgrade-Insecure-Requests", "Sec-Fetch-Site", "Proxy-Authorization", "Cache-Control", "From", "Via"];
+    let k = g.range(2, 6) as usize;
+    let start = g.usize_below(NAMES.len());
+    let fields: Vec<(String, String)> = (0..k).map(|i| (NAMES[(start + i * 4) % NAMES.len()].to_string(), format!("value-{}-of-{}", i, k))).collect();
+    let method = *g.pick(&["GET", "POST", "HEAD", "PUT"]);
+    let sim = Sim::new(ctx.sim_config());
+    let sip: IpAddr = "10.0.0.5".parse().unwrap();
+    let aip: IpAddr = "10.0.0.1".parse().unwrap();
+    sim.add_host("secure.test", vec![sip]);
+    sim.add_host("a.test", vec![aip]);
+    let seen_tls = Arc::new(Mutex::new(Seen::default()));
+    let seen = Arc::new(Mutex::new(Seen::default()));
+    {
+        let seen = seen_tls.clone();
+        let tlog = Arc::new(Mutex::new(crate::tlspeer::TlsLog::default()));
+        sim.add_listener(
+            sip,
+            443,
+            ConnectBehaviour::Accept { latency_ns: NS_PER_MS },
+            Some(Box::new(move |i| {
+                let inner = HttpPeer::new(
+                    Arc::new(move |_r, _c| {
+                        let mut s = Script::default();
+                        s.acts.push(Act::Send(format!("HTTP/1.1 {} Moved\r\nLocation: http://a.test/plain?after=tls\r\nContent-Length: 0\r\n\r\n", status).into_bytes()));
+                        s.acts.push(Act::Fin);
+                        s
+                    }),
+                    seen.clone(),
+                );
+                Box::new(crate::tlspeer::TlsPeer::new("good", Box::new(inner), tlog.clone(), i.conn))
+            })),
+        );
+    }
+    {
+        let seen2 = seen.clone();
+        sim.add_listener(
+            aip,
+            80,
+            ConnectBehaviour::Accept { latency_ns: NS_PER_MS },
+            Some(Box::new(move |_i| {
+                Box::new(HttpPeer::new(
+                    Arc::new(move |r, _c| {
+                        let mut s = Script::default();
+                        s.acts.push(Act::Send(if r.method == "HEAD" { b"HTTP/1.1 200 OK\r\nContent-Length: 5\r\n\r\n".to_vec() } else { b"HTTP/1.1 200 OK\r\nContent-Length: 5\r\n\r\nplain".to_vec() }));
+                        s.acts.push(Act::Fin);
+                        s
+                    }),
+                    seen2.clone(),
+                ))
+            })),
+        );
+    }
+    let fields2 = fields.clone();
+    let out = sim.run(|| {
+        let mut rb = attohttpc::RequestBuilder::new(attohttpc::Method::from_bytes(method.as_bytes()).unwrap(), "https://secure.test/start")
+            .proxy_settings(attohttpc::ProxySettings::builder().build())
+            .add_root_certificate(ca_cert());
+        for (n, v) in &fields2 {
+            rb = rb.header(attohttpc::header::HeaderName::from_bytes(n.as_bytes()).unwrap(), v.as_str());
+        }
+        let mut prepared = rb.text("payload of the request").prepare();
+        let mut res = Vec::new();
+        for _ in 0..2 {
+            res.push(match prepared.send() {
+                Ok(r) => Ok((r.status().as_u16(), r.url().to_string())),
+                Err(e) => Err(err_kind(&e)),
+            });
+        }
+        res
+    });
+    let mut stats = Stats::default();
+    stats.absorb(&out.history);
+    let desc = format!("{} https://secure.test/start -> {} -> http://a.test/plain?after=tls with fields {:?}, sent twice", method, status, fields);
+    let verdict = match &out.result {
+        None => violation("hang", "run torn down"),
+        Some(Err(m)) => violation("panic", m.clone()),
+        Some(Ok(res)) => (|| {
+            for (i, r) in res.iter().enumerate() {
+                match r {
+                    Ok((200, u)) if u == "http://a.test/plain?after=tls" => {}
+                    other => return violation("downgrade:result", format!("send #{} returned {:?} ({})", i + 1, other, desc)),
+                }
+            }
+            let (st, sp) = (seen_tls.lock().unwrap(), seen.lock().unwrap());
+            if st.requests.len() != 2 || sp.requests.len() != 2 {
+                return violation("downgrade:hop-count", format!("{} requests at the TLS origin, {} at the plain one, expected 2 and 2 ({})", st.requests.len(), sp.requests.len(), desc));
+            }
+            for (hop, reqs) in [("https", &st.requests), ("http", &sp.requests)] {
+                for (pass, (_, r)) in reqs.iter().enumerate() {
+                    let r = match r {
+                        Ok(r) => r,
+                        Err(m) => return violation("downgrade:hop-malformed", format!("{} hop, send #{}: {} ({})", hop, pass + 1, m, desc)),
+                    };
+                    for (n, v) in &fields {
+                        let have = r.header_all(&n.to_ascii_lowercase());
+                        if have.len() != 1 || have[0] != v.as_bytes() {
+                            return violation(
+                                format!("downgrade:caller-header-lost:{}", hop),
+                                format!("{} hop of send #{}: field {:?} is {:?} on the wire, the caller set {:?} ({})", hop, pass + 1, n, have.iter().map(|x| String::from_utf8_lossy(x).into_owned()).collect::<Vec<_>>(), v, desc),
+                            );
+                        }
+                    }
+                }
+            }
+            Verdict::Pass
+        })(),
+    };
+    RunReport {
+        verdict,
+        shape: format!("downgrade/{}/{}/{}", method, status, fields.iter().map(|f| f.0.as_str()).collect::<Vec<_>>().join(",")),
+        nontrivial: true,
+        stats,
+        sched_tape: out.sched_tape,
+        describe: if ctx.describe { desc } else { String::new() },
+    }
+}
+
 pub fn scenario(g: &mut G, ctx: &RunCtx) -> RunReport {
     let mut plan: ReqPlan = reqgen::gen_request(g, if ctx.thorough { 100_000 } else { 20_000 });
     // the first URL's query is part of node 0's identity: keep the caller's params out of the way of routing
@@ -372,6 +496,9 @@ pub fn scenario(g: &mut G, ctx: &RunCtx) -> RunReport {
     // drawn last: recorded tapes keep their meaning
     if g.chance(1, 10) {
         return resend_after_failed_walk_family(g, ctx);
+    }
+    if g.chance(1, 16) {
+        return downgrade_family(g, ctx);
     }
     let url0 = gr.nodes[0].url.clone();
     let no_proxy2: Vec<String> = no_proxy.iter().map(|s| s.to_string()).collect();
